@@ -589,6 +589,7 @@ def evaluate(ctx, binp, cases, tag):
     terms, by_id = [], {}
     harness_mismatch = []
     nev = 0
+    next_sid = [max([c["id"] for c in cases] + [0])]      # ids of the per-key sub-cases of `format` cases
     for c in cases:
         o = outs.get(c["id"])
         if o is None:
@@ -625,13 +626,12 @@ def evaluate(ctx, binp, cases, tag):
             nev += 1
         elif kind == "format":
             tbl = flatten(c["tree"])
-            sub = 0
             for k, vo in zip(c["keys"], o.get("vals") or []):
                 key = unhx(k).decode()
                 v = obs_val(vo["val"]) if vo.get("val") else None
                 want = tbl.get(key)
-                sid = c["id"] * 1000 + sub
-                sub += 1
+                next_sid[0] += 1
+                sid = next_sid[0]
                 d2 = {"case": {"kind": "format", "config": c["config"], "key": key}, "observed": vo, "generator_value": repr(want)}
                 by_id[sid] = d2
                 if isinstance(v, tuple) and v[0] == "other":
@@ -646,8 +646,8 @@ def evaluate(ctx, binp, cases, tag):
     out = vlib.coq_eval_sharded(ctx, "cases_c16_" + tag, HEADER, terms,
                                 {"M": "mismatches", "V": "violations", "NT": "count_nontrivial", "ST": "count_strict",
                                  "FR": "count_infrag", "KC": "kf_codes"}, shard=160)
-    for code in out["KC"]:
-        by_id[code // 10].setdefault("used_noncanonical_default_classes", []).append(code % 10)
+    for i in range(0, len(out["KC"]) - 1, 2):
+        by_id[out["KC"][i]].setdefault("used_noncanonical_default_classes", []).append(out["KC"][i + 1])
     M = sorted(set(out["M"]) | set(harness_mismatch))
     return by_id, M, out["V"], {"nt": sum(out["NT"]), "strict": sum(out["ST"]), "infrag": sum(out["FR"]), "evals": nev}
 
